@@ -129,6 +129,8 @@ func runC17(c *ev.Ctx) {
 	c.Parallel(nA, 16, func(i int) { c17Protocol(c, c.Rand("proto", i), i) })
 	nB := c.Pick(40, 600)
 	c.Parallel(nB, 8, func(i int) { c17Memory(c, c.Rand("mem", i), i) })
+	nC := c.Pick(120, 2000)
+	c.Parallel(nC, 8, func(i int) { c17Pipelined(c, c.Rand("pipe", i), i) })
 }
 
 func c17forEach(N int) func(start basestream.Locator, rType basestream.RequestType, onKey func(key basestream.Locator) bool, onAppended func(items basestream.Payload) bool) basestream.Payload {
@@ -534,4 +536,77 @@ func c17Memory(c *ev.Ctx, r *rand.Rand, caseN int) {
 		}
 	}
 	c.Nontrivial(ev.Hash("c17mem", caseN, maxSeen))
+}
+
+// c17Pipelined: requests for the same sessions are issued back to back without waiting while the senders are
+// slow (random sleeps in SendChunk): the responses of one session must still arrive in stream order.
+func c17Pipelined(c *ev.Ctx, r *rand.Rand, caseN int) {
+	N := 300
+	cfg := basestreamseeder.Config{SenderThreads: 2 + r.Intn(3), MaxSenderTasks: 256, MaxPendingResponsesSize: 1 << 30, MaxResponsePayloadNum: 3, MaxResponsePayloadSize: 1000, MaxResponseChunks: 4}
+	var mu sync.Mutex
+	next := map[uint32]int{}
+	got := map[uint32]int{}
+	bad := ""
+	var s *basestreamseeder.BaseSeeder
+	slow := rand.New(rand.NewSource(r.Int63()))
+	peer := basestreamseeder.Peer{ID: "pipe", SendChunk: func(rsp basestream.Response) error {
+		mu.Lock()
+		d := time.Duration(slow.Intn(200)) * time.Microsecond
+		mu.Unlock()
+		time.Sleep(d)
+		mu.Lock()
+		defer mu.Unlock()
+		for _, it := range rsp.Payload.(*c17payload).items {
+			if it != next[rsp.SessionID] && bad == "" {
+				bad = fmt.Sprintf("session %d: item %d arrived where %d was expected (responses of one session overtook each other)", rsp.SessionID, it, next[rsp.SessionID])
+			}
+			next[rsp.SessionID] = it + 1
+		}
+		got[rsp.SessionID]++
+		return nil
+	}, Misbehaviour: func(error) {}}
+	s = basestreamseeder.New(cfg, basestreamseeder.Callbacks{ForEachItem: c17forEach(N)})
+	s.Start()
+	starts := map[uint32]int{1: r.Intn(50), 2: 50 + r.Intn(50), 3: 100 + r.Intn(50)}
+	for sid, st := range starts {
+		next[sid] = st
+	}
+	want := map[uint32]int{}
+	for round := 0; round < 6; round++ {
+		for sid, st := range starts {
+			_, _ = s.NotifyRequestReceived(peer, basestream.Request{Session: basestream.Session{ID: sid, Start: c17loc(st), Stop: c17loc(N)}, MaxChunks: 2, MaxPayloadNum: 3, MaxPayloadSize: 1000})
+			want[sid] += 2
+		}
+	}
+	deadline := time.Now().Add(30 * time.Second)
+	for {
+		mu.Lock()
+		done := true
+		for sid, n := range want {
+			if got[sid] < n {
+				done = false
+			}
+		}
+		mu.Unlock()
+		if done || time.Now().After(deadline) {
+			break
+		}
+		time.Sleep(200 * time.Microsecond)
+	}
+	s.Stop()
+	mu.Lock()
+	defer mu.Unlock()
+	c.Eval(1)
+	c.Count("pipelined_runs", 1)
+	if bad != "" {
+		c.Violation("session-responses-out-of-order", map[string]interface{}{"case": caseN, "sender_threads": cfg.SenderThreads, "why": bad})
+		return
+	}
+	for sid, n := range want {
+		if got[sid] != n {
+			c.Violation("response-missing", map[string]interface{}{"case": caseN, "phase": "pipelined", "session": sid, "got": got[sid], "want": n})
+			return
+		}
+	}
+	c.Nontrivial(ev.Hash("pipe", caseN, cfg.SenderThreads))
 }
